@@ -21,7 +21,12 @@ MANIFEST = dict(
          "ORACLE on SQLite: programs whose tables, aliases and columns are drawn from keywords, mixed case, spaces, quotes, non-ASCII, "
          "table_0..3, _expr_0..3 in every position, executed against tables and columns created with those exact names whose every cell is "
          "tagged with its origin; for all 12 dialects the SQL must parse with that dialect's sqlparser and carry the exact names as identifier "
-         "tokens.",
+         "tokens. Every site that INVENTS a name is forced by its own templates (the same relation two or three times in one FROM list, self-join, "
+         "a let-table joined with itself, user aliases next to invented ones, invented aliases inside CTEs / let-tables / inline join sides, "
+         "recursive steps with extern tables and un-named sub-queries, several splits, inline relations on either side of a join, append operands "
+         "wrapped in sub-queries, unnamed computed columns and aggregates kept across a split, helper columns of group-take and window rewrites) "
+         "and run with the user's relations drawn from table_0..5 and columns from _expr_0..3 (full product per position kind, seed-independent); "
+         "the resolver's global names _literal_<id> of relation literals are swept over _literal_0..299.",
     note="names inside s-strings are opaque SQL and outside the property (a generated CTE name can capture a table named only inside an "
          "s-string); case folding of bare identifiers by the database is not modelled (prqlc emits bare only lower-case names); the 11 "
          "non-SQLite dialects are judged by sqlparser's parser, not by a database. Fixed in /repo: quote characters inside quoted identifiers "
@@ -34,6 +39,14 @@ POOL = ["where", "having", "order", "union", "table", "index", "user", "limit", 
         "table_0", "table_1", "table_2", "table_3", "_expr_0", "_expr_1", "_expr_2", "_expr_3", "q\"\"q", "b\\\"s", "semi;colon", "--c"]
 PLAIN = dict(T="tbl1", U="tbl2", C="c1", D="c2", A="al", L="mylet")
 NROWS = 3
+# the names the two generators of the SQL backend (`table_N` for CTEs / relation aliases / sub-query aliases, `_expr_N` for columns) invent next:
+# a program with k inventions before the critical one needs a user object called <prefix>k, so the pools reach past the largest counter value
+# any template reaches (the append / loop templates get to table_5)
+GEN_T = [f"table_{i}" for i in range(6)]
+GEN_C = [f"_expr_{i}" for i in range(4)]
+DB_NAMES = POOL + [n for n in GEN_T + GEN_C if n not in POOL] + list(PLAIN.values())
+# templates whose position A is a relation alias (elsewhere A is a column alias)
+A_IS_TABLE = {"table-alias", "alias-split", "join-alias-split", "alias-then-twice", "join-alias-thrice"}
 
 
 def q(n):
@@ -89,6 +102,86 @@ def templates():
          lambda n: [[tag(n['T'], n['C'], i)] for i in R], False),
         ("derive-sort", "TCA", lambda n: f"from {q(n['T'])} | derive {{{q(n['A'])} = {q(n['C'])}}} | sort {{{q(n['A'])}}} | select {{{q(n['A'])}}}",
          lambda n: [[tag(n['T'], n['C'], i)] for i in R], True),
+
+        # ---- shapes that FORCE the compiler to invent a name (the user's names are drawn from the generated-name patterns) ----
+        # relation aliases (RelVarNameAssigner): the same relation twice in one FROM list
+        ("join-twice", "TUCD", lambda n: f"from {q(n['T'])} | join {q(n['U'])} (==k) | join {q(n['U'])} ({q(n['T'])}.k == that.k) | select {{{q(n['T'])}.{q(n['C'])}, {q(n['U'])}.{q(n['D'])}}}",
+         lambda n: [[tag(n['T'], n['C'], i), tag(n['U'], n['D'], i)] for i in R], False),
+        ("self-join", "TCD", lambda n: f"from {q(n['T'])} | join {q(n['T'])} (this.k == that.k) | select {{{q(n['T'])}.{q(n['C'])}, {q(n['T'])}.{q(n['D'])}}}",
+         lambda n: [[tag(n['T'], n['C'], i), tag(n['T'], n['D'], i)] for i in R], False),
+        ("join-thrice", "TUCD", lambda n: f"from {q(n['T'])} | join {q(n['U'])} (==k) | join {q(n['U'])} ({q(n['T'])}.k == that.k) | join {q(n['U'])} ({q(n['T'])}.k == that.k) | "
+                                          f"select {{{q(n['T'])}.{q(n['C'])}, {q(n['U'])}.{q(n['D'])}}}",
+         lambda n: [[tag(n['T'], n['C'], i), tag(n['U'], n['D'], i)] for i in R], False),
+        # the user's relation comes AFTER the invented alias
+        ("twice-then-user", "TUCD", lambda n: f"from {q(n['U'])} | join {q(n['U'])} (this.k == that.k) | join {q(n['T'])} ({q(n['T'])}.k == {q(n['U'])}.k) | "
+                                              f"select {{{q(n['T'])}.{q(n['C'])}, {q(n['U'])}.{q(n['D'])}}}",
+         lambda n: [[tag(n['T'], n['C'], i), tag(n['U'], n['D'], i)] for i in R], False),
+        # CTE names are drawn first, the alias after them
+        ("split-then-twice", "TUCD", lambda n: f"from {q(n['U'])} | take 3 | filter k > 0 | join {q(n['T'])} (==k) | join {q(n['T'])} ({q(n['U'])}.k == that.k) | "
+                                               f"select {{{q(n['T'])}.{q(n['C'])}, {q(n['U'])}.{q(n['D'])}}}",
+         lambda n: [[tag(n['T'], n['C'], i), tag(n['U'], n['D'], i)] for i in R], False),
+        # the invented alias lives inside a CTE / a let-table / an inline join side
+        ("twice-in-cte", "TUCD", lambda n: f"from {q(n['T'])} | join {q(n['U'])} (==k) | join {q(n['U'])} ({q(n['T'])}.k == that.k) | select {{{q(n['T'])}.{q(n['C'])}, {q(n['U'])}.{q(n['D'])}}} | "
+                                           f"take 3 | filter {q(n['C'])} != 'zz'",
+         lambda n: [[tag(n['T'], n['C'], i), tag(n['U'], n['D'], i)] for i in R], False),
+        ("twice-in-let", "TUCDL", lambda n: f"let {q(n['L'])} = (from {q(n['T'])} | join {q(n['T'])} (this.k == that.k) | select {{{q(n['T'])}.{q(n['C'])}, k = {q(n['T'])}.k}})\n"
+                                            f"from {q(n['L'])} | join {q(n['U'])} (==k) | select {{{q(n['L'])}.{q(n['C'])}, {q(n['U'])}.{q(n['D'])}}}",
+         lambda n: [[tag(n['T'], n['C'], i), tag(n['U'], n['D'], i)] for i in R], False),
+        ("twice-in-join-side", "TUCD", lambda n: f"from {q(n['T'])} | join s = (from {q(n['U'])} | join {q(n['U'])} (this.k == that.k) | select {{{q(n['U'])}.k, {q(n['U'])}.{q(n['D'])}}} | take 3) (==k) | "
+                                                 f"select {{{q(n['T'])}.{q(n['C'])}, s.{q(n['D'])}}}",
+         lambda n: [[tag(n['T'], n['C'], i), tag(n['U'], n['D'], i)] for i in R], False),
+        ("let-twice", "TCL", lambda n: f"let {q(n['L'])} = (from {q(n['T'])} | select {{{q(n['C'])}, k}} | take 3)\nfrom {q(n['L'])} | join {q(n['L'])} (this.k == that.k) | select {{{q(n['L'])}.{q(n['C'])}}}",
+         lambda n: [[tag(n['T'], n['C'], i)] for i in R], False),
+        # a user ALIAS next to an invented one
+        ("alias-then-twice", "TUCDA", lambda n: f"from {q(n['A'])} = {q(n['T'])} | join {q(n['U'])} (==k) | join {q(n['U'])} ({q(n['A'])}.k == that.k) | select {{{q(n['A'])}.{q(n['C'])}, {q(n['U'])}.{q(n['D'])}}}",
+         lambda n: [[tag(n['T'], n['C'], i), tag(n['U'], n['D'], i)] for i in R], False),
+        ("join-alias-thrice", "TUCDA", lambda n: f"from {q(n['T'])} | join {q(n['A'])} = {q(n['U'])} (==k) | join {q(n['U'])} ({q(n['T'])}.k == that.k) | join {q(n['U'])} ({q(n['T'])}.k == that.k) | "
+                                                 f"select {{{q(n['T'])}.{q(n['C'])}, {q(n['A'])}.{q(n['D'])}}}",
+         lambda n: [[tag(n['T'], n['C'], i), tag(n['U'], n['D'], i)] for i in R], False),
+        # a recursive step joining an extern table (the recursive CTE, its reference and the final alias are all invented)
+        ("loop-join", "TUC", lambda n: f"from {q(n['T'])} | filter k == 1 | select {{k, {q(n['C'])}}} | loop (join side:inner {q(n['U'])} ({q(n['U'])}.k == this.k + 1) | select {{{q(n['U'])}.k, {q(n['U'])}.{q(n['C'])}}})",
+         lambda n: [[1, tag(n['T'], n['C'], 1)], [2, tag(n['U'], n['C'], 2)], [3, tag(n['U'], n['C'], 3)]], False),
+        # ... and a recursive step whose FROM list holds a user table BEFORE an un-named sub-query (the sub-query's alias is invented there)
+        ("loop-table-then-subquery", "TUC", lambda n: f"from {q(n['T'])} | filter k == 1 | select {{k, {q(n['C'])}}} | loop (join side:inner {q(n['U'])} ({q(n['U'])}.k == this.k + 1) | "
+                                                      f"join side:inner c=(from {q(n['T'])} | filter k > 0 | take 100 | filter k > 1) (c.k == {q(n['U'])}.k) | select {{c.k, {q(n['U'])}.{q(n['C'])}}})",
+         lambda n: [[1, tag(n['T'], n['C'], 1)], [2, tag(n['U'], n['C'], 2)], [3, tag(n['U'], n['C'], 3)]], False),
+        # CTE names (assign_names): several splits, let-tables, aliases, inline sides, set operations
+        ("double-split", "TUCD", lambda n: f"from {q(n['T'])} | take 3 | filter k > 1 | take 3 | filter k > 2 | join {q(n['U'])} (==k) | select {{{q(n['T'])}.{q(n['C'])}, {q(n['U'])}.{q(n['D'])}}}",
+         lambda n: [[tag(n['T'], n['C'], 3), tag(n['U'], n['D'], 3)]], False),
+        ("let-split", "TUCDL", lambda n: f"let {q(n['L'])} = (from {q(n['T'])} | select {{{q(n['C'])}, k}} | take 3)\nfrom {q(n['L'])} | filter k > 1 | take 3 | filter k > 2 | join {q(n['U'])} (==k) | "
+                                         f"select {{{q(n['L'])}.{q(n['C'])}, {q(n['U'])}.{q(n['D'])}}}",
+         lambda n: [[tag(n['T'], n['C'], 3), tag(n['U'], n['D'], 3)]], False),
+        ("alias-split", "TUCDA", lambda n: f"from {q(n['A'])} = {q(n['T'])} | take 3 | filter k > 0 | join {q(n['U'])} (==k) | select {{{q(n['A'])}.{q(n['C'])}, {q(n['U'])}.{q(n['D'])}}}",
+         lambda n: [[tag(n['T'], n['C'], i), tag(n['U'], n['D'], i)] for i in R], False),
+        ("join-alias-split", "TUCDA", lambda n: f"from {q(n['T'])} | join {q(n['A'])} = {q(n['U'])} (==k) | take 3 | filter {q(n['T'])}.k > 0 | select {{{q(n['T'])}.{q(n['C'])}, {q(n['A'])}.{q(n['D'])}}}",
+         lambda n: [[tag(n['T'], n['C'], i), tag(n['U'], n['D'], i)] for i in R], False),
+        ("inline-join-side", "TUCD", lambda n: f"from {q(n['T'])} | join s = (from {q(n['U'])} | select {{k, {q(n['D'])}}} | take 3) (==k) | select {{{q(n['T'])}.{q(n['C'])}, s.{q(n['D'])}}}",
+         lambda n: [[tag(n['T'], n['C'], i), tag(n['U'], n['D'], i)] for i in R], False),
+        ("inline-both-sides", "TUCD", lambda n: f"from (from {q(n['T'])} | select {{k, {q(n['C'])}}} | take 3) | join s = (from {q(n['U'])} | select {{k, {q(n['D'])}}} | take 3) (==k) | select {{{q(n['C'])}, s.{q(n['D'])}}}",
+         lambda n: [[tag(n['T'], n['C'], i), tag(n['U'], n['D'], i)] for i in R], False),
+        ("append-inline", "TUC", lambda n: f"from {q(n['T'])} | select {{{q(n['C'])}}} | append (from {q(n['U'])} | select {{{q(n['C'])}}} | take 3)",
+         lambda n: [[tag(t, n['C'], i)] for t in (n['T'], n['U']) for i in R], False),
+        ("append-both-wrapped", "TUC", lambda n: f"from {q(n['T'])} | select {{{q(n['C'])}}} | take 3 | append (from {q(n['U'])} | select {{{q(n['C'])}}} | take 3)",
+         lambda n: [[tag(t, n['C'], i)] for t in (n['T'], n['U']) for i in R], False),
+        ("append-split", "TUC", lambda n: f"from {q(n['T'])} | select {{k, {q(n['C'])}}} | take 3 | filter k > 0 | append (from {q(n['U'])} | select {{k, {q(n['C'])}}} | take 3 | filter k > 1) | select {{{q(n['C'])}}}",
+         lambda n: [[tag(n['T'], n['C'], i)] for i in R] + [[tag(n['U'], n['C'], i)] for i in R if i > 1], False),
+        ("group-take-join", "TUCD", lambda n: f"from {q(n['T'])} | group {{{q(n['C'])}}} (take 1) | join {q(n['U'])} (==k) | select {{{q(n['T'])}.{q(n['C'])}, {q(n['U'])}.{q(n['D'])}}}",
+         lambda n: [[tag(n['T'], n['C'], i), tag(n['U'], n['D'], i)] for i in R], False),
+        # column names (ensure_column_name / helper columns of the take and window rewrites): the invented column is KEPT next to the user's
+        ("unnamed-kept", "TC", lambda n: f"from {q(n['T'])} | select {{{q(n['C'])}, k, k + 1}} | take 3 | filter k > 0",
+         lambda n: [[tag(n['T'], n['C'], i), i, i + 1] for i in R], False),
+        ("unnamed-two", "TCD", lambda n: f"from {q(n['T'])} | select {{{q(n['C'])}, k + 1, {q(n['D'])}, k + 2}} | take 3 | filter {q(n['C'])} != 'zz'",
+         lambda n: [[tag(n['T'], n['C'], i), i + 1, tag(n['T'], n['D'], i), i + 2] for i in R], False),
+        ("unnamed-first", "TCD", lambda n: f"from {q(n['T'])} | select {{k + 1, {q(n['C'])}, {q(n['D'])}}} | take 3 | filter {q(n['D'])} != 'zz'",
+         lambda n: [[i + 1, tag(n['T'], n['C'], i), tag(n['T'], n['D'], i)] for i in R], False),
+        ("group-sort-take", "TCD", lambda n: f"from {q(n['T'])} | group {{{q(n['C'])}}} (sort {{{q(n['D'])}}} | take 1) | select {{{q(n['C'])}, {q(n['D'])}}}",
+         lambda n: [[tag(n['T'], n['C'], i), tag(n['T'], n['D'], i)] for i in R], False),
+        ("window-filter", "TCA", lambda n: f"from {q(n['T'])} | sort {{{q(n['C'])}}} | derive {{{q(n['A'])} = row_number this}} | filter {q(n['A'])} > 1 | select {{{q(n['C'])}, {q(n['A'])}}}",
+         lambda n: [[tag(n['T'], n['C'], i), i] for i in R if i > 1], True),
+        ("aggregate-unnamed-split", "TCD", lambda n: f"from {q(n['T'])} | group {{{q(n['C'])}, {q(n['D'])}}} (aggregate {{count this}}) | take 3 | filter {q(n['C'])} != 'zz'",
+         lambda n: [[tag(n['T'], n['C'], i), tag(n['T'], n['D'], i), 1] for i in R], False),
+        ("sort-hidden-key", "TC", lambda n: f"from {q(n['T'])} | sort {{k + 1}} | select {{{q(n['C'])}}} | take 3 | filter {q(n['C'])} != 'zz'",
+         lambda n: [[tag(n['T'], n['C'], i)] for i in R], True),
     ]
 
 
@@ -98,7 +191,7 @@ def sq(n):
 
 def make_db():
     con = sqlite3.connect(":memory:")
-    names = POOL + list(PLAIN.values())
+    names = DB_NAMES
     cols = [c for c in names]
     for t in names:
         con.execute(f"CREATE TABLE {sq(t)} (k INTEGER, " + ", ".join(f"{sq(c)} TEXT" for c in cols) + ")")
@@ -108,11 +201,19 @@ def make_db():
 
 
 def run_sql(con, sql):
+    # guard against a statement that does not terminate (a recursive step that binds to the wrong relation): abort after ~2e7 VM steps
+    budget = [200]
+    def tick():
+        budget[0] -= 1
+        return 1 if budget[0] < 0 else 0
+    con.set_progress_handler(tick, 100000)
     try:
         cur = con.execute(sql)
         return [list(r) for r in cur.fetchall()], None
     except Exception as e:
         return None, f"{type(e).__name__}: {e}"
+    finally:
+        con.set_progress_handler(None, 0)
 
 
 def compile_req(prql, dialect="sqlite"):
@@ -275,7 +376,7 @@ def suite_oracle(ctx, br, progs, con, stats, dialects, label):
                 nbad_text += 1
                 ctx.disagreement("identifier text", f"the text Model.Names.emitIdent predicts for {n!r} does not occur in the SQL", {"prql": src, "sql": sql, "model": mtext[n]})
         renamed = None
-        if k in pred and tid != "loop-join-subquery":      # nested sub-queries of a recursive step get no CTE name: not modelled
+        if k in pred and tid not in NO_CTE_MODEL:      # nested sub-queries of a recursive step / of a set operation get no CTE name: not modelled
             tabs, m = pred[k]
             if m.startswith("ok "):
                 assigned = [dec(x) for x in m.split(" ", 2)[2].split(";")] if len(m.split(" ", 2)) > 2 else []
@@ -310,7 +411,7 @@ def suite_oracle(ctx, br, progs, con, stats, dialects, label):
             stats["fail"][("sqlite", tid, fid)] += 1
             ctx.oracle_failure(fid, f"{tid}: names bind to the wrong objects or the statement fails: {err or str(got)[:160]}",
                                {"prql": src, "dialect": "sqlite", "sql": sql, "expected": want, "observed": got if got is not None else err},
-                               det_key=(src,) if sum(1 for p_, v_ in names.items() if PLAIN.get(p_) != v_) <= 1 else None)
+                               det_key=(src,) if src in DET_SRCS or sum(1 for p_, v_ in names.items() if PLAIN.get(p_) != v_) <= 1 else None)
         elif renamed:
             ctx.disagreement("assign_names", "the model predicts that an extern table is renamed but the result is right", {"prql": src, "sql": sql, "renamed": renamed})
     ctx.obligation(f"correspondence[{label}]: identifier text in the emitted SQL = Model.Names.emitIdent", nbad_text == 0, f"{len(progs)} programs")
@@ -343,6 +444,7 @@ def suite_oracle(ctx, br, progs, con, stats, dialects, label):
 
 
 TEMPL_POS = {}
+NO_CTE_MODEL = {"loop-join-subquery", "loop-table-then-subquery", "append-inline", "append-both-wrapped", "append-split"}
 
 
 def tid_positions(tid):
@@ -365,10 +467,15 @@ def kind_of(n):
     return "other-special"
 
 
-def build_programs(rng, n_random):
+def _init_templates():
     T = templates()
     for tid, pos, *_ in T:
         TEMPL_POS[tid] = set(pos)
+    return T
+
+
+def build_programs(rng, n_random):
+    T = _init_templates()
     progs = []
     for tid, pos, mk, ex, ordered in T:
         for p in pos:
@@ -388,6 +495,89 @@ def build_programs(rng, n_random):
         if p[2] not in seen:
             seen.add(p[2]); out.append(p)
     return out
+
+
+def pos_pool(tid, p):
+    """the generated-name pattern a position can collide with: relation positions (table, second table, let name, relation alias) draw from
+    table_N, column positions (column, second column, column alias) from _expr_N"""
+    return GEN_T if p in "TUL" or (p == "A" and tid in A_IS_TABLE) else GEN_C
+
+
+def build_capture_programs(rng, n_random, skip, full):
+    """every template with its positions drawn from the generated-name patterns, seed-independent: the product of the relation positions over
+    {plain, table_0..5} with plain columns, and the product of the column positions over {plain, _expr_0..3} with plain relations (pairwise
+    distinct names); `full` (thorough tier): the product over all positions at once. The random part mixes generated-pattern names with
+    plain and pool names in all positions"""
+    T = _init_templates()
+    det, out, seen = [], [], set(skip)
+    for tid, pos, mk, ex, ordered in T:
+        rel = [p for p in pos if pos_pool(tid, p) is GEN_T]
+        groups = [list(pos)] if full else [rel, [p for p in pos if p not in rel]]
+        for grp in groups:
+            for pick in itertools.product(*[[PLAIN[p]] + pos_pool(tid, p) for p in grp]):
+                names = dict(PLAIN)
+                names.update(zip(grp, pick))
+                if len(set(names[p] for p in pos)) < len(pos):
+                    continue
+                src = mk(names)
+                if src not in seen:
+                    seen.add(src); det.append((tid, names, src, ex(names), ordered))
+    for _ in range(n_random):
+        tid, pos, mk, ex, ordered = rng.choice(T)
+        names = dict(PLAIN)
+        for p in pos:
+            k = rng.random()
+            names[p] = rng.choice(pos_pool(tid, p)) if k < 0.6 else rng.choice(GEN_T + GEN_C) if k < 0.75 else rng.choice(POOL) if k < 0.9 else PLAIN[p]
+        if len(set(names[p] for p in pos)) < len(pos):
+            continue
+        src = mk(names)
+        if src not in seen:
+            seen.add(src); out.append((tid, names, src, ex(names), ordered))
+    DET_SRCS.update(p[2] for p in det)
+    return det + out
+
+
+DET_SRCS = set()
+
+
+LITERAL_SWEEP = 300
+
+
+def suite_literal_names(ctx, stats):
+    """the resolver invents a global name `_literal_<node id>` in default_db for every relation literal: sweep the user's table name over
+    `_literal_0..N` in four shapes (literal appended / joined, before / after the user's table); seed-independent, executed on SQLite"""
+    con = sqlite3.connect(":memory:")
+    for n in range(LITERAL_SWEEP):
+        con.execute(f'CREATE TABLE "_literal_{n}" (k INTEGER, c1 TEXT)')
+        con.executemany(f'INSERT INTO "_literal_{n}" VALUES (?,?)', [(i, tag(f"_literal_{n}", "c1", i)) for i in range(1, NROWS + 1)])
+    R = range(1, NROWS + 1)
+    shapes = [
+        ("literal-appended", lambda X: f"from {q(X)} | select {{c1}} | append [{{c1 = 'x'}}]", lambda X: [[tag(X, "c1", i)] for i in R] + [["x"]]),
+        ("literal-first-append", lambda X: f"from [{{c1 = 'x'}}] | append (from {q(X)} | select {{c1}})", lambda X: [[tag(X, "c1", i)] for i in R] + [["x"]]),
+        ("literal-joined", lambda X: f"from {q(X)} | join side:inner l=[{{k = 1}}] (==k) | select {{{q(X)}.c1}}", lambda X: [[tag(X, "c1", 1)]]),
+        ("literal-first-join", lambda X: f"from [{{k = 1}}] | join {q(X)} (==k) | select {{{q(X)}.c1}}", lambda X: [[tag(X, "c1", 1)]]),
+    ]
+    for sid, mk, ex in shapes:
+        names = [f"_literal_{n}" for n in range(LITERAL_SWEEP)]
+        srcs = [mk(X) for X in names]
+        for X, src, a in zip(names, srcs, vh_batch([compile_req(x) for x in srcs])):
+            ctx.case(("literal", src), nontrivial="sql" in a)
+            stats["templates"][sid] += 1
+            if "sql" not in a:
+                # the user's extern table and the literal's invented global name are the same entry of default_db: the program is rejected
+                # (internal compiler error / unknown name / no wildcard). Only a REJECTION of such a program belongs to this class.
+                fid = "literal-global-name-captures-user-table" if a.get("panic") is None and a.get("errors") else None
+                stats["fail"][("sqlite", sid, fid)] += 1
+                ctx.oracle_failure(fid, f"{sid}: a program over the user table {X} and a relation literal is rejected",
+                                   {"prql": src, "dialect": "sqlite", "errors": [e.get("reason") for e in a.get("errors", [])], "panic": a.get("panic")}, det_key=(src,))
+                continue
+            got, err = run_sql(con, a["sql"])
+            stats["sqlite_exec"] += 1
+            want = ex(X)
+            if got is None or sorted(map(repr, got)) != sorted(map(repr, want)):
+                stats["fail"][("sqlite", sid, None)] += 1
+                ctx.oracle_failure(None, f"{sid}: the user table {X} next to a relation literal binds to the wrong object or the statement fails: {err or str(got)[:160]}",
+                                   {"prql": src, "dialect": "sqlite", "sql": a["sql"], "expected": want, "observed": got if got is not None else err}, det_key=(src,))
 
 
 def suite_split_model(ctx, stats):
@@ -425,7 +615,14 @@ def run(ctx):
                 "extern table, split with duplicate column names, aggregate, table alias, derive+sort); systematically every pool name (30: keywords, "
                 "mixed case, spaces, quotes, non-ASCII, punctuation, table_0..3, _expr_0..3) in every position (table, second table, column, second "
                 "column, alias, let name) with plain names elsewhere, then seeded random draws without repetition for all positions; a case is one "
-                "program executed on SQLite (cells tagged t:<table>/c:<column>/r:<row>) or one (program, dialect) parse; non-trivial = compiled")
+                "program executed on SQLite (cells tagged t:<table>/c:<column>/r:<row>) or one (program, dialect) parse; non-trivial = compiled. "
+                "Plus 30 templates that force an invented name (relation joined twice / thrice, self-join, let-table joined with itself, alias next "
+                "to an invented alias, invention inside a CTE / let / inline side, two more recursive steps, double split, let + split, alias + split, "
+                "inline sides, three append shapes, group-take + join, unnamed columns kept across a split, group-sort-take, window + filter, unnamed "
+                "aggregate, hidden sort key): same pool stream (quick: sqlite + one dialect per quoting style; thorough: all 12), and for ALL templates "
+                "the generated-name stream: relation positions x {plain, table_0..5} with plain columns and column positions x {plain, _expr_0..3} "
+                "with plain relations (thorough: the product over all positions at once), pairwise distinct, SQLite only, then seeded random mixes; "
+                "4 relation-literal shapes x user table _literal_0..299")
     ctx.assumptions += ["which object a name binds to is observed on SQLite only (origin-tagged cells); for the other 11 dialects the check is that the "
                         "dialect's sqlparser parses the SQL as one statement and the user names occur verbatim as identifier tokens",
                         "the trusted list of SQLite reserved words is https://sqlite.org/lang_keywords.html (147 words) as written in Props/C09.lean",
@@ -440,14 +637,22 @@ def run(ctx):
     con = make_db()
     progs = build_programs(ctx.rng, 10000 if thorough else 250)
     t0 = time.time()
-    suite_oracle(ctx, br, progs, con, stats, DIALECTS if thorough else DIALECTS, "templates")
+    first_new = [t[0] for t in templates()].index("join-twice")
+    newer = {t[0] for t in templates()[first_new:]}
+    suite_oracle(ctx, br, [p for p in progs if p[0] not in newer], con, stats, DIALECTS, "templates")
+    # the templates that force an invented name: all 12 dialects in the thorough tier, one dialect per quoting style in the quick tier
+    suite_oracle(ctx, br, [p for p in progs if p[0] in newer], con, stats, DIALECTS if thorough else ["sqlite", "postgres", "mssql", "mysql", "bigquery"], "templates forcing invented names")
+    cap = build_capture_programs(ctx.rng, 20000 if thorough else 1500, {p[2] for p in progs}, thorough)
+    stats["capture_programs"] = len(cap)
+    suite_oracle(ctx, br, cap, con, stats, ["sqlite"], "generated-name patterns")
+    suite_literal_names(ctx, stats)
     ctx.exhaustive = True
     suite_split_model(ctx, stats)
     unknown = {str(k): n for k, n in stats["fail"].items() if k[2] not in ctx.known}
     ctx.obligation("oracle: every name binds to the object of exactly that name on SQLite and is carried verbatim for every dialect (outside recorded findings)",
                    not unknown, json.dumps({str(k): n for k, n in stats["fail"].items()})[:1500])
     ctx.coverage_extra["distribution"] = {"hook_results": dict(stats["hook"]), "templates": dict(stats["templates"]), "name_kinds_in_programs": dict(stats["name_kinds"]),
-                                          "sqlite_statements_executed": stats["sqlite_exec"], "split_model_cases": dict(stats["split"]),
+                                          "sqlite_statements_executed": stats["sqlite_exec"], "generated_name_stream_programs": stats.get("capture_programs"), "split_model_cases": dict(stats["split"]),
                                           "property_failures_by_site_and_class": {str(k): n for k, n in sorted(stats["fail"].items(), key=str)}}
     ctx.coverage_extra["timing_s"] = {"oracle": round(time.time() - t0, 1)}
     ctx.sample({"prql": "let a = (from [{k = 1}] | take 1)\nfrom table_0 | join a (==k) | select {table_0.c1}",
